@@ -54,9 +54,14 @@ def cases(draw):
     pm = model.paths[cname]
     t = draw(st.sampled_from(pm.types))
     f = {}
+    # one case in six is the path of a SEARCH Sid (what a Finder globs with): several fields are '*' / '>'
+    searchy = draw(st.integers(0, 5)) == 0
     for k in m.keys(t):
         spec = m.specs[(t, k)]
-        f[k] = draw(st.sampled_from(["x", "x_y", "x.b", "y", "x?y", "x?task=rig", "x#1", "x y", "e\u0301", "\u00e9", "x\\y", "A\u030a"])) if spec.free else draw(gens.concrete_value(spec, digits_dense=True))
+        if searchy and draw(st.integers(0, 1)) == 0 and m.accepts_value(t, k, "*"):
+            f[k] = draw(st.sampled_from(["*", "*", ">"]))
+            continue
+        f[k] = draw(st.sampled_from(["x", "x_y", "x.b", "y", "x?y", "x?task=rig", "x#1", "x y", "e\u0301", "\u00e9", "x\\y", "A\u030a", ".x", ".x.b"])) if spec.free else draw(gens.concrete_value(spec, digits_dense=True))
     ps = pieces(pm, t, f)
     labels = []
     rootkind = "own"
